@@ -332,7 +332,7 @@ def write_evidence(prop, ev):
 
 
 def process_candidates(prop, engine, binary, cands, get_plan, env=None, header=None, max_report=12, min_budget=300,
-                       exec_timeout=300, simplify=None, args=None, log=print):
+                       exec_timeout=300, simplify=None, args=None, log=print, pin_first=False):
     """Confirm, minimise and write replay files for candidate violations.
     Returns (violations[list of dict(sig, path)], known[list of dict], harness_errors[list of str])."""
     known = load_known_findings()
@@ -362,7 +362,12 @@ def process_candidates(prop, engine, binary, cands, get_plan, env=None, header=N
         def test(ops):
             return exec_plan(binary, ops, env, timeout=exec_timeout, header=hdr, args=args)["sig"] == sig
 
-        small, ncalls = ddmin(plan, test, budget=min_budget)
+        if pin_first and len(plan) > 1:
+            # the first line is the plan's own header (e.g. the scheduler seed): never dropped
+            rest, ncalls = ddmin(plan[1:], lambda ops: test([plan[0]] + ops), budget=min_budget)
+            small = [plan[0]] + rest
+        else:
+            small, ncalls = ddmin(plan, test, budget=min_budget)
         if simplify:
             small = simplify(small, test)
         final = exec_plan(binary, small, env, timeout=exec_timeout, header=hdr, args=args)
